@@ -232,6 +232,12 @@ def do_check(run: Run, args):
             for cl in list(c.ensures) + list(getattr(c, "ensures_exc", {}) or {}):
                 if cl not in seen_clauses:
                     run.checker_errors.append(f"vacuity: {fn}.{cl} generated no obligation (no path reaches the exit this clause speaks about)")
+            # a loop cut at its invariants must also generate the preservation step, unless its body never reaches the back edge
+            inits = {cl.split(".inv")[0] for (cl, kind) in agg if kind == "inv-init"}
+            pres = {cl.split(".inv")[0] for (cl, kind) in agg if kind == "inv-preserve"}
+            for lp in sorted(inits - pres):
+                if lp not in (c.native.get("loops_without_back_edge") or []):
+                    run.checker_errors.append(f"vacuity: {fn}.{lp} has invariants but no preservation obligation was generated (every path through the loop body ended early)")
         for (cl, kind), lst in agg.items():
             if kind == "cover":
                 ok = any(r["result"] == "sat" for _, r in lst)
